@@ -2,6 +2,7 @@ package lint
 
 import (
 	"fmt"
+	"go/ast"
 	"go/token"
 	"go/types"
 	"sort"
@@ -15,6 +16,34 @@ func isInitFunc(fn *ssa.Function) bool {
 		fn = fn.Parent()
 	}
 	return fn.Name() == "init" || strings.HasPrefix(fn.Name(), "init#")
+}
+
+// declaredPackageVars counts the names declared by package-level var declarations in the module's syntax trees.
+func (c *Ctx) declaredPackageVars() int {
+	n := 0
+	for _, p := range c.Pkgs {
+		if p.Module == nil || p.Module.Path != c.modPath {
+			continue
+		}
+		for _, file := range p.Syntax {
+			for _, d := range file.Decls {
+				gd, ok := d.(*ast.GenDecl)
+				if !ok || gd.Tok != token.VAR {
+					continue
+				}
+				for _, sp := range gd.Specs {
+					if vs, ok := sp.(*ast.ValueSpec); ok {
+						for _, name := range vs.Names {
+							if name.Name != "_" {
+								n++
+							}
+						}
+					}
+				}
+			}
+		}
+	}
+	return n
 }
 
 // moduleGlobals lists package-level variables of the module.
@@ -97,7 +126,10 @@ func RunC18(c *Ctx, r *Report) {
 	r.NotDecided = append(r.NotDecided, "data-race freedom inside the standard library", "that results equal those of a sequential run is implied by, not separately derived from, the absence of shared mutable state")
 
 	globals := c.moduleGlobals()
-	r.Rule(prefix+"globals.inventory", "package-level variables of the module are enumerated (floor: the 17 confirmed by hand)", 17)
+	// the floor is counted independently, from the syntax: every name declared by a package-level var
+	// declaration of a module package (17 on the tree the rule was written for, confirmed by hand)
+	declared := c.declaredPackageVars()
+	r.Rule(prefix+"globals.inventory", fmt.Sprintf("package-level variables of the module are enumerated (floor: the %d names the package-level var declarations of the syntax trees declare)", declared), declared)
 	for _, g := range globals {
 		r.ok(prefix+"globals.inventory", typeKey2(g), c.Pos(g.Pos()), "type "+typeKey(g.Type().(*types.Pointer).Elem()), false)
 	}
